@@ -13,6 +13,16 @@
 //!  * cost:  peak-live allocation <= 64 KiB + 1 KiB*(b+n), cpu <= 50 ms + 20 us*(b+n);
 //!           death by rlimit / allocation failure is the violation itself;
 //!  * error: observed outcome must be in the probe's allowed set (table frame-shape -> ErrorKind).
+//!
+//! Signatures: `C04.mem:<family>`, `C04.cpu:<family>` (family = handler+field), `C04.crash:<family>`,
+//! `C04.error:<clause>:<observed>` (clause = trigger class, observed = accepted | dropped | panic |
+//! the wrong ErrorKind), `C04.panic:<clause>` (panic where acceptance was expected).
+//! CPU time is noisy on a shared host (stolen vCPU time is charged to the process), so a CPU overrun
+//! only counts when three independent runs of the same deterministic probe all exceed the budget.
+//! Values are first tried at 10^3/10^5/10^7 (slope recorded in `max_slope_*` counters); once a
+//! magnitude is over budget larger values of that family/history are skipped instead of being killed.
+//! `l1rec c04 --dump-table <file>` writes the systematic table (JSON lines: frames hex, pre-history,
+//! allowed outcomes) for the L2 injection leg; `--replay <file>` re-runs one probe.
 use std::{
     collections::{HashSet, VecDeque},
     io::{Read, Write},
@@ -63,7 +73,9 @@ const RLIMIT_CPU_S: u64 = 20;
 const WATCHDOG_S: u64 = 90;
 /// our advertised limits
 const MAX_STREAMS: u64 = 100;
-const STREAM_WINDOW: u64 = 1 << 16;
+/// per-stream window == connection window (the library's handy defaults): the connection-level
+/// ledger can then be overrun by frames that each respect their stream's limit
+const STREAM_WINDOW: u64 = 1 << 20;
 const CONN_WINDOW: u64 = 1 << 20;
 const LOCAL_CID_LIMIT: u64 = 4; // our active_connection_id_limit (bounds what the peer may issue)
 const PEER_CID_LIMIT: u64 = 4; // the peer's active_connection_id_limit (bounds what we issue)
@@ -1276,23 +1288,26 @@ fn f_set_limit(h: Hist, e: &str, v: u64) -> Option<Probe> {
 
 fn f_stream_offset(h: Hist, e: &str, v: u64) -> Option<Probe> {
     let sid = wire::sid(0, 0, 0);
+    let used = 50 * h.streams + if h.streams >= 2 { 50 } else { 0 };
+    let have0 = if h.streams >= 1 { 50 } else { 0 };
     let (clause, allowed) = if v == VMAX {
         ("stream.offset-beyond-2^62", err(&["FrameEncoding", "FlowControl"]))
     } else if v + 1 > STREAM_WINDOW {
         ("stream.offset-beyond-stream-limit", err(&["FlowControl"]))
+    } else if used + (v + 1).saturating_sub(have0) > CONN_WINDOW {
+        ("stream.beyond-connection-limit", err(&["FlowControl"]))
     } else {
         ("stream.offset-within-limit", acc())
     };
     mk("stream.offset", clause, e, h, wire::stream(sid, v, 1, false), v, allowed)
 }
 fn vals_stream_off(_h: Hist) -> Vec<u64> {
-    sweep(&rel(STREAM_WINDOW - 1), VMAX)
+    sweep(&[STREAM_WINDOW - 1, STREAM_WINDOW, STREAM_WINDOW + 1, STREAM_WINDOW - 2000, 2 * STREAM_WINDOW], VMAX)
 }
 
-/// v new streams, each filled to its own limit, then a RESET_STREAM of a further stream whose final
-/// size uses exactly the remaining connection credit (even v) or one byte more (odd v).  The
-/// receive controller extends max_data by half the initial window whenever the received total comes
-/// within that distance of the limit (qbase/src/flow.rs), which the expectation follows.
+/// v new streams, each filled to its own limit in one frame.  The receive controller extends max_data
+/// by half the initial window whenever the received total comes within that distance of the limit
+/// (qbase/src/flow.rs); the expectation follows that rule frame by frame.
 fn f_conn_flow(h: Hist, e: &str, v: u64) -> Option<Probe> {
     if v > 64 {
         return None;
@@ -1300,28 +1315,30 @@ fn f_conn_flow(h: Hist, e: &str, v: u64) -> Option<Probe> {
     let mut body = vec![];
     let mut rcvd = 50 * h.streams + if h.streams >= 2 { 50 } else { 0 };
     let (mut max, step) = (CONN_WINDOW, CONN_WINDOW / 2);
+    let mut over = false;
     for i in 0..v {
         body.extend(wire::stream(wire::sid(0, 0, 20 + i), STREAM_WINDOW - 1, 1, false));
         rcvd += STREAM_WINDOW;
         if rcvd > max {
-            return None;
+            over = true;
+            break;
         }
         if rcvd + step >= max {
             max += step;
         }
     }
-    let over = v % 2 == 1;
-    let fin = max - rcvd + over as u64;
-    body.extend(wire::reset_stream(wire::sid(0, 0, 90), 7, fin));
+    if body.is_empty() {
+        body.push(wire::PING);
+    }
     let (clause, allowed) = if over {
         ("stream.beyond-connection-limit", err(&["FlowControl"]))
     } else {
-        ("stream.at-connection-limit", acc_or(&["FlowControl"]))
+        ("stream.within-connection-limit", acc())
     };
     mk("stream.connection-flow", clause, e, h, body, v, allowed)
 }
 fn vals_conn_flow(_h: Hist) -> Vec<u64> {
-    vec![0, 1, 7, 8, 15, 16, 17, 30]
+    vec![0, 1, 2, 3, 5]
 }
 
 /// stream 1 is in Size Known state (final size 100, bytes 50..80 missing); stream 0 holds 0..50
@@ -1347,19 +1364,18 @@ fn f_reset_final_recv(h: Hist, e: &str, v: u64) -> Option<Probe> {
     let used = 50 * h.streams + if h.streams >= 2 { 50 } else { 0 };
     let (clause, allowed) = if v < 50 {
         ("reset_stream.final-size-below-received", err(&["FinalSize"]))
-    } else if v <= STREAM_WINDOW {
-        ("reset_stream.final-size-valid", acc())
-    } else if used - 50 + v <= CONN_WINDOW {
-        // above the stream's limit but inside the connection's: RFC 9000 4.1/4.5 read together call for
-        // FLOW_CONTROL_ERROR, but no sentence says so for RESET_STREAM explicitly: not demanded
-        ("reset_stream.final-size-gt-stream-limit", acc_or(&["FlowControl"]))
-    } else {
+    } else if v > STREAM_WINDOW {
+        // RFC 9000 4.1 + 4.5: the final size is flow-control credit consumed on the stream
+        ("reset_stream.final-size-gt-stream-limit", err(&["FlowControl"]))
+    } else if used - 50 + v > CONN_WINDOW {
         ("reset_stream.final-size-gt-connection-limit", err(&["FlowControl"]))
+    } else {
+        ("reset_stream.final-size-valid", acc())
     };
     mk("reset_stream.final_size", clause, e, h, wire::reset_stream(wire::sid(0, 0, 0), 7, v), v, allowed)
 }
 fn vals_reset_final(_h: Hist) -> Vec<u64> {
-    sweep(&[49, 50, 51, STREAM_WINDOW, STREAM_WINDOW + 1, CONN_WINDOW - 200, CONN_WINDOW + 1], VMAX)
+    sweep(&[49, 50, 51, 1 << 16, CONN_WINDOW - 2000, CONN_WINDOW - 1, STREAM_WINDOW, STREAM_WINDOW + 1], VMAX)
 }
 
 /// RESET_STREAM on stream 1 whose final size (100) is known
